@@ -238,6 +238,25 @@ def book_merge(repo: Repo) -> List[Ob]:
                             "append_states(other) is not guarded by `other is not <receiving container>`: merging two handles of one composite lists its product spaces and envelopes twice")))
     if sites < 1:
         raise AnalysisError("BOOK-merge: no append_states call found")
+    # moved product spaces: indices are refreshed after the merge and the spaces point at their new container
+    app = repo.func("CompositeEnvelopeContainer.append_states")
+    repoints = any(isinstance(l, ast.For) and "other" in src(l.iter) and any(isinstance(a, ast.Assign) and any(isinstance(t, ast.Attribute) and t.attr == "container" for t in a.targets) and src(a.value) == "self" for a in ast.walk(l))
+                   for l in walk_no_nested(app.node))
+    (obs.append(ok("BOOK-merge", app, "moved-spaces-repointed", P, app.node, "appended product spaces are pointed at the receiving container")) if repoints else
+     obs.append(bad("BOOK-merge", app, "moved-spaces-repointed", P, app.node,
+                    "product spaces appended from another container keep `container` pointing at the old one: their reorder() refreshes the indices of the wrong container")))
+    for fi in state_functions(repo):
+        calls = [n for n in walk_no_nested(fi.node) if method_call(n) and method_call(n)[1] == "append_states"]
+        if not calls:
+            continue
+        cfg2 = CFG(fi.node)
+        upd = {nd for nd in cfg2.nodes for x in walk_node(nd) if method_call(x) and method_call(x)[1] == "update_all_indices"}
+        for i, c in enumerate(calls, 1):
+            nd = cfg2.node_containing(c)
+            good = nd is not None and bool(upd) and cfg2.always_followed_by(nd, upd)
+            (obs.append(ok("BOOK-merge", fi, f"merge-then-refresh#{i}", P, c, "indices are refreshed after product spaces were appended")) if good else
+             obs.append(bad("BOOK-merge", fi, f"merge-then-refresh#{i}", P, c,
+                            "product spaces of the other container are appended behind the existing ones but update_all_indices() does not follow: their members keep the positions they had in the old container")))
     # after a merge every old handle must be re-pointed: ce.uid = self.uid inside the merge loop
     init = repo.func("CompositeEnvelope.__init__")
     repoint = any(isinstance(n, ast.Assign) and any(isinstance(t, ast.Attribute) and t.attr == "uid" and src(t.value) != "self" for t in n.targets) and src(n.value) == "self.uid"
